@@ -81,6 +81,22 @@ def generate(rng, tier):
                 {"op": "rename", "src": src, "dst": dst, "fault": "rename_file"},
                 scen.cmd("create", "@R", "-dr", *fm), {"op": "advance", "us": 1_000_000},
                 scen.cmd("create", "@R", *fm), {"op": "advance", "us": 1_000_000}]
+    if rng.random() < 0.2:
+        # rename detection among entries of equal content: several missing paths and / or several new paths carry the
+        # same digest; which previous path is written must not depend on where the root lives
+        c = gen.unique_content(rng)
+        dirs_ = [""] + gen.tree_dirs(tree)
+        fm = gen.fmt_args(gen.pick_formats(rng, 1, 1))
+        k = rng.randrange(3)
+        olds = ["dup_old_1.bin"] if k == 0 else [rng.choice(dirs_) + "/dup_old_1.bin", rng.choice(dirs_) + "/dup_old_2.bin", "dup_old_3.bin"][: rng.randint(2, 3)]
+        news = [rng.choice(dirs_) + "/dup_new_a.bin", rng.choice(dirs_) + "/dup_new_b.bin"][: (2 if k != 1 else 1)]
+        olds = sorted({o.lstrip("/") for o in olds})
+        news = sorted({n.lstrip("/") for n in news})
+        pre = [{"op": "write", "path": o, "c": c, "fault": "add_file"} for o in olds]
+        post = [{"op": "remove", "path": o, "fault": "remove_file"} for o in olds] + \
+               [{"op": "write", "path": n, "c": c, "fault": "add_file"} for n in news]
+        ops += pre + [scen.cmd("create", "@R", *fm), {"op": "advance", "us": 1_000_000}] + post + \
+               [scen.cmd("create", "@R", "-dr", *fm), {"op": "advance", "us": 1_000_000}]
     mount = rng.choice(MOUNTS)
     mount = [pat.strip("/*") + ("x" if "*" in pat and pat.startswith("tmp") else "") if m == "PATTERN" else m for m in mount]
     mount = [m if m else "pp" for m in mount]
